@@ -11,7 +11,18 @@ if not os.path.isdir(wt):
 os.environ['SCMO_REPO'] = wt
 from sa.run import check
 rows = []
+# SEEDED_ONLY=id1,id2 re-evaluates those changes only and keeps the stored rows of seeded/MATRIX.md for the others
+only = set(filter(None, os.environ.get('SEEDED_ONLY', '').split(',')))
+stored = {}
+if only and os.path.exists('/verif/seeded/MATRIX.md'):
+    for l in open('/verif/seeded/MATRIX.md'):
+        c = [x.strip() for x in l.strip().strip('|').split(' | ')]
+        if len(c) == 5 and c[0].startswith('C') and c[1].startswith('C'):
+            stored[c[0]] = tuple(c)
 for d in sorted(glob.glob('/verif/seeded/C*-*')):
+    if only and os.path.basename(d) not in only and os.path.basename(d) in stored:
+        rows.append(stored[os.path.basename(d)])
+        continue
     meta = json.load(open(f'{d}/meta.json'))
     prop = meta['property']
     subprocess.check_call(['git', '-C', wt, 'reset', '-q', '--hard'])
